@@ -126,9 +126,10 @@ impl InferShapes for Range {
         let limit = inputs.require(1)?;
         let delta = inputs.require(2)?;
 
-        let start = start.values().map(|v| v[0].clone());
-        let limit = limit.values().map(|v| v[0].clone());
-        let delta = delta.values().map(|v| v[0].clone());
+        // The inputs should be scalars, but may be empty vectors in an invalid model.
+        let start = start.values().and_then(|v| v.first().cloned());
+        let limit = limit.values().and_then(|v| v.first().cloned());
+        let delta = delta.values().and_then(|v| v.first().cloned());
 
         let out_value = match (start, limit, delta) {
             (
